@@ -140,6 +140,16 @@ def install(R: Registry):
         return eng.apply_contract(R.contracts[which], env["self"], [data], {}, st, node, None)
     R.external("Socket.sendall", params=dict(self="Socket", data="Buffer"), handler=sendall)
     R.contracts["Socket.sendall"].untyped = {"data"}      # argument keeps its static type (header vs payload)
+    for _partial in ("send", "sendmsg"):
+        R.external("Socket." + _partial, params=dict(self="Socket", data="Buffer"), returns="Int",
+                   requires=[("C03 C07", "not self.closed")],
+                   modifies=["Socket.pending", "Socket.frames", "Socket.last_count"],
+                   ensures=["result >= 0",
+                            "forall('s:Socket', implies(s != self, s.pending == old(s.pending) and s.frames == old(s.frames) and s.last_count == old(s.last_count)))"],
+                   raises={"ConnectionError": ["forall('s:Socket', implies(s != self, s.pending == old(s.pending) and s.frames == old(s.frames) and s.last_count == old(s.last_count)))"]},
+                   doc="sock.send / sock.sendmsg write a PREFIX of the data and return its length: the position of the stream inside the frame afterwards is unknown "
+                       "unless the caller accounts for the result (frames/pending are left unconstrained)")
+        R.contracts["Socket." + _partial].untyped = {"data"}
     R.external("Socket.close", params=dict(self="Socket"), modifies=["Socket.closed"],
                ensures=["self.closed", "forall('s:Socket', implies(s != self, s.closed == old(s.closed)))"])
 
